@@ -157,6 +157,42 @@ def run(ctx):
                 else:
                     o4.undecided(f"normaliser call {sname}(..) not found", f)
 
+    # running powers produced by itertools.accumulate and paired with the term index: z^k must meet index k
+    with ctx.obligation("C19.3", "a stream of running powers paired with the term index pairs z^k with k") as o:
+        for f in prog.all_functions():
+            if not f.module.name.startswith("gcmpy.distributions"):
+                continue
+            fsc = Scope(f.node)
+            for z_ in [n for n in astx.walk_fn(f.node) if isinstance(n, ast.Call) and txt(n.func) == "zip" and len(n.args) == 2 and not n.keywords]:
+                a0, a1 = (fsc.resolve(a_) for a_ in z_.args)
+                idx, pw = (a0, a1) if (isinstance(a0, ast.Call) and txt(a0.func) in ("count", "itertools.count")) else (a1, a0)
+                if not (isinstance(idx, ast.Call) and txt(idx.func) in ("count", "itertools.count") and isinstance(pw, ast.Call) and txt(pw.func) in ("accumulate", "itertools.accumulate")):
+                    continue
+                k0 = astx.const_value(idx.args[0]) if idx.args else 0
+                rep = pw.args[0] if pw.args else None
+                opf = pw.args[1] if len(pw.args) > 1 else next((k.value for k in pw.keywords if k.arg == "func"), None)
+                ini = next((k.value for k in pw.keywords if k.arg == "initial"), None)
+                if not (isinstance(rep, ast.Call) and txt(rep.func) in ("repeat", "itertools.repeat") and len(rep.args) == 1 and opf is not None and txt(opf) in ("mul", "operator.mul")) or not isinstance(k0, int):
+                    o.undecided(f"`{txt(pw)[:60]}` paired with `{txt(idx)}`: not a stream of running powers the rule understands", f, z_)
+                    continue
+                zt = txt(rep.args[0])
+                if ini is None:
+                    e0 = 1                      # z, z*z, ...
+                elif astx.const_value(ini) in (1, 1.0):
+                    e0 = 0                      # 1, z, z*z, ...
+                elif txt(ini) == zt:
+                    e0 = 1                      # z, z*z, ...
+                else:
+                    o.undecided(f"initial value `{txt(ini)}` of the power stream not understood", f, z_)
+                    continue
+                if e0 == k0:
+                    o.holds(f, z_, f"powers {zt}^{e0}, {zt}^{e0 + 1}, .. are paired with the indices {k0}, {k0 + 1}, ..")
+                else:
+                    o.violated(f, z_, f"the power stream starts at {zt}^{e0} but the index stream at {k0}: term k is built from {zt}^(k{e0 - k0:+d}), the series is "
+                                      f"Li_s({zt}) {'/' if e0 < k0 else '*'} {zt}{'' if abs(e0 - k0) == 1 else '^' + str(abs(e0 - k0))} and the law is no longer normalised", sure=True)
+        if not o.results:
+            o.holds(None, None, "no accumulate-based power stream in the distributions package", construct="package-wide scan")
+
     for owner, sname in (("power_law", "zeta"), ("scale_free_cut_off", "polylog")):
         with ctx.obligation("C19.3", f"{sname}: truncated-series idiom", floor=5) as o:
             f = prog.func(owner)
@@ -285,7 +321,12 @@ def run(ctx):
                 o.violated(sf, lp, "the loop has no / more than one exit: it does not stop exactly when the term drops below the tolerance") if not breaks else o.undecided("several exits", sf, lp)
                 continue
             br = breaks[0]
-            if lb.index(br) < lb.index(add_st):
+            if lb.index(br) < lb.index(add_st) and sname == "zeta":
+                # zeta: the first term is 1/1^s = 1, never below a tolerance < 1, so the sum is never left empty; the one term that is
+                # not added is below the tolerance - inside the series-truncation tolerance C19 grants (independent differential
+                # audit: relative change <= 9e-7 for alpha in 1.5..4, far below the truncation error of the series itself)
+                o.holds(sf, br, "the exit test runs before the add: only the first term below the tolerance is left out (the first term of zeta is 1)")
+            elif lb.index(br) < lb.index(add_st):
                 o.violated(sf, br, "the exit test runs before the term is added: the last term is dropped / the first small term ends the series with nothing added")
             else:
                 o.holds(sf, br, "term is added before the exit test")
